@@ -65,6 +65,7 @@ func runC02(c *Ctx) {
 	}
 	tols = append(tols, tol{-5 * 1000 * ms, -7 * 1000 * ms})
 	n := 0
+	lay := 0 // 0: Response signed, Destination present; 1: every Assertion signed, Response unsigned without Destination
 	mk := func(cfg Cfg, now int64, v [5]int, nconf, badConfAt, nassert, badAssertAt int, class string) {
 		n++
 		id := fmt.Sprint(n)
@@ -98,10 +99,19 @@ func runC02(c *Ctx) {
 			}
 			kids = append(kids, buildAssertion(s))
 		}
+		if lay == 1 {
+			rs.Dest = nil
+			for _, k := range kids {
+				SignInto(k, 0)
+			}
+		}
 		r := buildResponse(rs, kids...)
-		SignInto(r, 0)
+		if lay == 0 {
+			SignInto(r, 0)
+		}
 		run := &Run{Cfg: cfg, IDs: []string{"req-1"}, Now: now, Cur: cfg.AcsURL, Doc: r}
 		c.Count("class/" + class)
+		c.Count(fmt.Sprintf("layout/%d", lay))
 		addRun(c, g, run, map[string]string{"class": class, "lattice": fmt.Sprint(v), "now_offset_ns": fmt.Sprint(now - N),
 			"delay": fmt.Sprint(cfg.MaxIssueDelay), "skew": fmt.Sprint(cfg.MaxClockSkew)}, false)
 	}
@@ -135,6 +145,17 @@ func runC02(c *Ctx) {
 			mk(cfg, now0+off, v, 1, 0, 1, 0, "on-bound")
 		}
 	}
+	// the other signing layout (assertions signed, Response unsigned and without Destination)
+	lay = 1
+	for pos := 0; pos < 5; pos++ {
+		for _, kk := range []int{0, 1, 4} {
+			v := [5]int{2, 2, 2, 2, 2}
+			v[pos] = kk
+			mk(cfg, now0, v, 1, 0, 1, 0, "assertion-signed")
+			mk(cfg, now0, v, 2, pos%2, 2, pos%2, "assertion-signed")
+		}
+	}
+	lay = 0
 	// tolerances: whatever values the settings hold; each single instant just inside / outside / on the bound
 	for _, t := range tols {
 		cfg := defaultCfg()
